@@ -5,6 +5,7 @@ The size functions `Spec.isFixed / fixedLen / minLen / maxLen` are what the libr
 correspondence on every run); the theorems tie them to the lengths of actual encodings.
 -/
 import Rmk.Proofs.Sizes
+import Rmk.Proofs.ByteLengthLaws
 namespace Rmk.C11
 open Rmk
 
@@ -28,6 +29,14 @@ theorem tight (t : Ty) (hwf : t.wf = true) :
 theorem fixed_min_max (t : Ty) (hwf : t.wf = true) (hf : Spec.isFixed t = true) :
     Spec.minLen t = Spec.fixedLen t ∧ Spec.maxLen t = Spec.fixedLen t ∧ 0 < Spec.fixedLen t :=
   ⟨(Rmk.fixed_min_max t hwf hf).1, (Rmk.fixed_min_max t hwf hf).2, fixedLen_pos t hwf hf⟩
+
+/-- `value_byte_length()` — computed by the library with its own recursion over the view, not by
+    serialising — equals the length of the actual encoding, for every tree that represents the value;
+    hence it lies within the type's bounds and equals the fixed length for fixed-size types. -/
+theorem value_byte_length (H : Hash) (t : Ty) (v : Val) (n : Node) (hwf : t.wf = true)
+    (hlim : ReprBasics.limitsOk t = true) (h : Impl.Repr H t v n) :
+    Impl.valueByteLength H t n = some (Spec.serialize t v).length :=
+  ByteLengthLaws.repr_vbl H t v n hwf hlim h
 
 /-! Non-vacuity -/
 private def t0 : Ty := .container [.uint 2, .list (.uint 1) 5, .bitlist 9]
